@@ -26,6 +26,27 @@ FUEL = 400_000
 INNER = ["RandomSampling", "UncertaintySampling:entropy", "UncertaintySampling:margin_sampling", "ProbabilisticAL", "EpistemicUncertaintySampling", "Falcun", "QueryByCommittee:vote_entropy", "QueryByCommittee:KL_divergence", "ContrastiveAL"]
 
 
+def _aggregator(name):
+    """Caller-supplied label aggregation (one free parameter, returns one label per sample)."""
+    if name is None:
+        return None
+    if name == "mv3":
+        from skactiveml.utils import majority_vote
+
+        return lambda y: majority_vote(y, random_state=3)
+
+    def first_label(y):
+        y = np.asarray(y, dtype=float)
+        out = np.full(len(y), np.nan)
+        for i, row in enumerate(y):
+            lab = row[~np.isnan(row)]
+            if len(lab):
+                out[i] = lab[0]
+        return out
+
+    return first_label
+
+
 def y_matrix(rows):
     return np.array([[np.nan if v is None else v for v in r] for r in rows], dtype=float)
 
@@ -91,7 +112,7 @@ class C07Check(Check):
                 "dup_annot_idx": g.chance(0.2),
             }
             cycles.append(cyc)
-        return {"engine": "crowdsim", "subject": subject, "model": "pwc", "seed": g.randrange(0, 1000), "X": X.tolist(), "y0": y0, "truth": truth, "cycles": cycles}
+        return {"engine": "crowdsim", "subject": subject, "model": "pwc", "seed": g.randrange(0, 1000), "X": X.tolist(), "y0": y0, "truth": truth, "cycles": cycles, "y_aggregate": g.pick([None, None, "mv3", "first"])}
 
     # ------------------------------------------------------------------
     def _strategy(self, sc):
@@ -107,7 +128,7 @@ class C07Check(Check):
         kw = {}
         if arg:
             kw[arg] = R.model(R.ENTRIES[key]["models"][0], classes=[0, 1], seed=0)
-        return SingleAnnotatorWrapper(inner, random_state=sc["seed"]), kw
+        return SingleAnnotatorWrapper(inner, y_aggregate=_aggregator(sc.get("y_aggregate")), random_state=sc["seed"]), kw
 
     @staticmethod
     def availability(cyc, y, n, na):
